@@ -28,7 +28,7 @@
 (* reports).  Minimal height is NOT demanded (the property does not).      *)
 (*                                                                         *)
 (* The model I is computed here from (program, EDB) by iterating T_P of     *)
-(* Datalog.tla stratum by stratum (ModelOf).                               *)
+(* Datalog.tla stratum by stratum (Datalog!ModelOf).                       *)
 (*                                                                         *)
 (* Tree values (built by vf/explain.py from souffle's JSON):               *)
 (*   [k |-> "node", rel, args, rule, kids]   inner node                    *)
@@ -42,13 +42,7 @@
 (***************************************************************************)
 EXTENDS Datalog
 
-\* ---- the model as an operator -------------------------------------------
-RECURSIVE StratumLfp(_, _, _)
-StratumLfp(Pg, S, J) == LET r == TP(Pg, S, J) IN IF r.I = J THEN J ELSE StratumLfp(Pg, S, r.I)
-RECURSIVE ModelFrom(_, _, _)
-ModelFrom(Pg, s, J) == IF s > Len(Pg.strata) THEN J
-                       ELSE ModelFrom(Pg, s + 1, StratumLfp(Pg, SeqToSet(Pg.strata[s]), J))
-ModelOf(Pg, e) == ModelFrom(Pg, 1, InitI(Pg, e))
+\* The model: Datalog!ModelOf(Pg, e).I (T_P iterated stratum by stratum).
 
 \* ---- facts ---------------------------------------------------------------
 IsFact(Pg, e, rel, args) ==
@@ -85,11 +79,11 @@ Cover(kids, lits, env, lenient) ==
 
 \* candidate valuations: the body of c solved with the positive atoms ranging over the children's tuples,
 \* negations looked up in the model I, constraints evaluated
-NodeEnvs(c, kids, I) ==
+NodeEnvs(c, kids, M) ==
     LET atoms   == {j \in 1..Len(c.body) : c.body[j].k = "atom"}
         posrels == {c.body[j].rel : j \in atoms}
         tuplesOf(r) == {kids[j].args : j \in {m \in 1..Len(kids) : IsAtomKid(kids[m]) /\ kids[m].rel = r}}
-        K    == [x \in {KidKey(r) : r \in posrels} |-> tuplesOf(CHOOSE r \in posrels : KidKey(r) = x)] @@ I
+        K    == [x \in {KidKey(r) : r \in posrels} |-> tuplesOf(CHOOSE r \in posrels : KidKey(r) = x)] @@ M
         body == [j \in 1..Len(c.body) |->
                     IF j \in atoms THEN [c.body[j] EXCEPT !.rel = KidKey(c.body[j].rel)] ELSE c.body[j]]
     IN Solve(body, {}, {EmptyEnv}, K).e
@@ -97,17 +91,17 @@ NodeEnvs(c, kids, I) ==
 RuleIdx(rules, rel, n) == {i \in 1..Len(rules) : rules[i].rel = rel /\ rules[i].n = n}
 
 RECURSIVE ValidTree(_, _, _, _, _, _)
-ValidTree(t, Pg, e, I, rules, lenient) ==
+ValidTree(t, Pg, e, M, rules, lenient) ==
     IF t.k = "leaf" THEN IsFact(Pg, e, t.rel, t.args)
     ELSE IF t.k = "node" THEN
         /\ RuleIdx(rules, t.rel, t.rule) # {}
         /\ LET c == rules[CHOOSE i \in RuleIdx(rules, t.rel, t.rule) : TRUE].c IN
            /\ c.head.rel = t.rel
            /\ Len(c.head.args) = Len(t.args)
-           /\ \E env \in NodeEnvs(c, t.kids, I) :
+           /\ \E env \in NodeEnvs(c, t.kids, M) :
                  /\ HeadTuples(c, {env}).t = {t.args}
                  /\ Cover(t.kids, c.body, env, lenient)
-        /\ \A j \in 1..Len(t.kids) : IsAtomKid(t.kids[j]) => ValidTree(t.kids[j], Pg, e, I, rules, lenient)
+        /\ \A j \in 1..Len(t.kids) : IsAtomKid(t.kids[j]) => ValidTree(t.kids[j], Pg, e, M, rules, lenient)
     ELSE FALSE
 
 RECURSIVE TreeSize(_), SumSizes(_, _)
@@ -116,19 +110,19 @@ TreeSize(t) == IF t.k = "node" THEN 1 + SumSizes(t.kids, 1) ELSE 1
 
 \* ---- one question put to `explain` ---------------------------------------
 \* q = [rel, args, ans];  ans = [k |-> "tree", tree] | [k |-> "notfound"] | [k |-> "relnotfound"] | [k |-> "other"]
-QueryVerdict(q, Pg, e, I, rules) ==
-    IF q.args \in I[q.rel]
+QueryVerdict(q, Pg, e, M, rules) ==
+    IF q.args \in M[q.rel]
     THEN IF q.ans.k # "tree" THEN "UNEXPLAINED"
          ELSE IF ~(IsAtomKid(q.ans.tree) /\ q.ans.tree.rel = q.rel /\ q.ans.tree.args = q.args) THEN "INVALID"
-         ELSE IF ValidTree(q.ans.tree, Pg, e, I, rules, FALSE) THEN "VALID"
-         ELSE IF ValidTree(q.ans.tree, Pg, e, I, rules, TRUE) THEN "SYMORD"
+         ELSE IF ValidTree(q.ans.tree, Pg, e, M, rules, FALSE) THEN "VALID"
+         ELSE IF ValidTree(q.ans.tree, Pg, e, M, rules, TRUE) THEN "SYMORD"
          ELSE "INVALID"
     ELSE IF q.ans.k \in {"notfound", "relnotfound"} THEN "ABSENT-OK" ELSE "ABSENT-EXPLAINED"
 
 \* ---- the cited rules belong to the program -------------------------------
 \* every cited rule over the program's own relations is satisfied by the program's model on this EDB
 ClauseRels(c) == {c.head.rel} \cup {c.body[j].rel : j \in {m \in 1..Len(c.body) : c.body[m].k \in {"atom", "neg"}}}
-CitedSound(rules, I) ==
+CitedSound(rules, M) ==
     \A i \in 1..Len(rules) :
-        ClauseRels(rules[i].c) \subseteq DOMAIN I => ClauseTP(rules[i].c, I).t \subseteq I[rules[i].c.head.rel]
+        ClauseRels(rules[i].c) \subseteq DOMAIN M => ClauseTP(rules[i].c, M).t \subseteq M[rules[i].c.head.rel]
 =============================================================================
